@@ -522,7 +522,7 @@ def _select(chk, disc):
             ds = rnd.sample(ds, min(len(ds), nquick))
         cases.extend(ds)
         chk.extra[name + "_product"] = len(ds)
-    for name, gen in (("uncaught", c07gen.uncaught_cases()), ("errobj", c07gen.errobj_cases())):
+    for name, gen in (("repeat", c07gen.repeat_product()), ("uncaught", c07gen.uncaught_cases()), ("errobj", c07gen.errobj_cases())):
         ds = [d for d in gen if keep(d)]
         cases.extend(ds)
         chk.extra[name + "_cases"] = len(ds)
